@@ -42,6 +42,25 @@ def rand_universe(rnd):
     return n, rules
 
 
+def chain_universe(rnd):
+    """dependency chains with unit shifts, a verified end, and a few shortcuts with large shifts (a class that is ahead of its
+    child when the large shift arrives; the reverse bucket somewhere on the way), inserted in a random order"""
+    n = rnd.randint(4, 7)
+    order = list(range(n))
+    rnd.shuffle(order)
+    rules = [ForestRuleKey(order[-1], (), (), B["V"])]
+    for i in range(n - 1):
+        rules.append(ForestRuleKey(order[i], (order[i + 1],), (rnd.choice([0, 0, 1, 1, 2]),), B[rnd.choice("NNNRE")]))
+    for _ in range(rnd.randint(1, 3)):
+        a, b = rnd.randrange(n), rnd.randrange(n)
+        rules.append(ForestRuleKey(order[a], (order[b],), (rnd.choice([2, 3, 3, 4, -1, -2]),), B[rnd.choice("NNR")]))
+    if rnd.random() < 0.4:
+        a, b, c = rnd.randrange(n), rnd.randrange(n), rnd.randrange(n)
+        rules.append(ForestRuleKey(order[a], (order[b], order[c]), (rnd.randint(0, 3), rnd.randint(0, 3)), B["N"]))
+    rnd.shuffle(rules)
+    return n, rules
+
+
 def extract(rules, root):
     tb = TableMethod()
     for r in rules:
@@ -207,6 +226,24 @@ def run(tier, seed, factor=1):
             rnd.shuffle(r2)
             cases.append((r2, root))
     run_cases(res, cases, "rand")
+    # chains with late large shifts (their own random stream)
+    rndc = random.Random(seed * 7817 + 12)
+    cases = []
+    while len(cases) < n // 2:
+        ncls, rules = chain_universe(rndc)
+        tb = TableMethod()
+        for r in rules:
+            tb.add_rule_key(r)
+        roots = [c for c in range(ncls) if tb.is_pumping(c)]
+        if not roots:
+            continue
+        root = rndc.choice(roots)
+        cases.append((rules, root))
+        for _ in range(common.scale(tier, 2, 6)):
+            r2 = rules[:]
+            rndc.shuffle(r2)
+            cases.append((r2, root))
+    run_cases(res, cases, "chain")
     # universes recorded by real forest searches (with and without reverse rules), key -> concrete rule
     import speccheck
     import specrun
